@@ -284,3 +284,14 @@ Definition count_from (c : Z) (ls : list line) (k : key) : Z :=
 Definition count (ls : list line) (k : key) : Z := count_from 0 ls k.
 
 Definition is_folder (d : deletion) : bool := rtype_eqb (fst d) Folder.
+
+(* ---------------------------------------------------------------- the client's side of the pipe *)
+(* multiprocessing.resource_tracker.ResourceTracker._send (CPython 3.12):
+     msg = '{0}:{1}:{2}\n'.format(cmd, name, rtype).encode('ascii')     (UnicodeEncodeError if not ASCII)
+     if len(msg) > 512: raise ValueError('msg too long')               (PIPE_BUF: the write is atomic)
+     os.write(self._fd, msg) *)
+Definition client_msg (cmd name : bytes) (t : rtype) : line :=
+  cmd ++ 58 :: name ++ 58 :: rtype_name t ++ [10].
+
+Definition send_accepts (cmd name : bytes) (t : rtype) : bool :=
+  is_ascii name && (Z.of_nat (List.length (client_msg cmd name t)) <=? 512).
